@@ -89,6 +89,10 @@ func parseVar(type_ string, rawValue string, r parser.Range) (Value, Interpreter
 	case analysis.TypeMonetary:
 		return parseMonetary(rawValue)
 	case analysis.TypeAccount:
+		// same syntax as account literals (without the leading '@')
+		if !accountNameRegex.MatchString(rawValue) {
+			return nil, InvalidAccountName{Name: rawValue, Range: r}
+		}
 		return AccountAddress(rawValue), nil
 	case analysis.TypePortion:
 		bi, err := ParsePortionSpecific(rawValue)
@@ -984,6 +988,7 @@ func (st *programState) evaluateSentAmt(sentValue parser.SentValue) (*string, *b
 	}
 }
 
+var accountNameRegex = regexp.MustCompile(`^[a-zA-Z0-9_-]+(:[a-zA-Z0-9_-]+)*$`)
 var percentRegex = regexp.MustCompile(`^([0-9]+)(?:[.]([0-9]+))?[%]$`)
 var fractionRegex = regexp.MustCompile(`^([0-9]+)\s?[/]\s?([0-9]+)$`)
 
